@@ -638,12 +638,14 @@ def groupStep (p : Params) (r : ROpts) (acc : List Object) (f : Field) : Option 
 
 def maxOsmStringLength : Nat := 256 * 4
 
-/-- `decode_stringtable`: `next(1, length_delimited)` skips everything else -/
+/-- `decode_stringtable`: `next(1, length_delimited)` skips everything else; an entry is refused
+    ("overlong string", and since repair da64936 "string with embedded NUL byte": a tag key such as
+    "a\0b" desynchronises `Tag::next()`, DESIGN.md F13a) -/
 def decodeStringTable (cur : List Bytes) (payload : Bytes) : Option (List Bytes) :=
   if !cur.isEmpty then none          -- "more than one stringtable in pbf file"
   else withFields payload fun fs =>
     let ss := (fs.filter fun f => f.tag == 1 && f.wt == .lengthDelimited).map (·.payload)
-    if ss.any (fun s => s.length > maxOsmStringLength) then none else some ss
+    if ss.any (fun s => s.length > maxOsmStringLength || s.contains 0) then none else some ss
 
 /-- the `switch` of `decode_primitive_block_metadata` -/
 def blockMetaStep (p : Params) (f : Field) : Option Params :=
